@@ -167,6 +167,37 @@ def race_stage(work, tier, seed):
         ops += [dict(op="barrier", c=c, ms=15000) for c in range(1, N + 1)]
         ops += [dict(op="close", c=c) for c in range(1, N + 1, 2)]
         scs.append(dict(sid="race%d" % si, config=dict(mods=ALL, idle_ms=60000, frame_ms=2), ops=ops))
+    # writers against readers of each piece of state shared by the members of a session
+    quads = [[[1, 0, 1], [1, 0, 1]], [[2, 0, 1], [1, 0, 1]], [[1, 0, 2], [1, 0, 1]], [[3, 0, 3], [2, 0, 2]], [[2, 0, 2], [1, 0, 1]]]
+    pairs = [
+        ("dagaz", [dict(k="Quad", quads=[q]) for q in quads] + [dict(k="Quad", quads=quads[:3])],
+         [dict(k="Region", rid=6, min=[-9, -1, -9], max=[9, 1, 9]), dict(k="Ground", rid=8, ray=[[1, 5, 1], [1, -5, 1]]), dict(k="Debug", rid=7),
+          dict(k="Join", rid=12, sid=1, ts=12)]),
+        ("vikja", [dict(k="Action", rid=9, eid=e, name=nm, ats=t, data=1, ts=9) for e in (1, 2) for nm in ("x", "y") for t in (3, 4)],
+         [dict(k="Join", rid=12, sid=1, ts=12), dict(k="EntityDelete", rid=13, eid=2, ts=13), dict(k="Join", rid=12, sid=0, ts=12)]),
+        ("odal", [dict(k="AssetAdd", rid=10, eid=e, asset=a, ts=10) for e in (1, 2, 3) for a in ("m", "n")],
+         [dict(k="Join", rid=12, sid=1, ts=12), dict(k="EntityDelete", rid=13, eid=3, ts=13)]),
+        ("components", [dict(k="CompAdd", rid=11, tid=1, eid=e, data=1, ts=11) for e in (1, 2, 3)] + [dict(k="CompUpdate", tid=1, eid=1, data=2, ts=5),
+                        dict(k="CompDelete", rid=14, tid=1, eid=2, ts=14), dict(k="Sub", rid=5, tid=1), dict(k="Unsub", rid=13, tid=1), dict(k="TypeAdd", rid=14, name="b")],
+         [dict(k="CompList", rid=5, tid=1), dict(k="Join", rid=12, sid=1, ts=12), dict(k="GetId", rid=15, name="b"), dict(k="GetName", rid=16, tid=2)]),
+        ("poses", [dict(k="Pose", eid=e, px=p, ts=5) for e in (1, 2, 3) for p in (3, 4)] + [dict(k="EntityAdd", rid=2, persist=False, flag=0, px=1, ts=2)],
+         [dict(k="Join", rid=12, sid=1, ts=12), dict(k="Custom", len=20, dig=1, to=[1, 2, 3], ts=5)]),
+    ]
+    for name, writers, readers in (pairs if tier == "quick" else pairs * 3):
+        N = 8
+        ops = [dict(op="dial", c=c) for c in range(1, N + 1)]
+        ops += [dict(op="req", c=1, req=dict(k="Join", rid=1, sid=0, ts=1)), dict(op="barrier", c=1)]
+        ops += [dict(op="req", c=c, req=dict(k="Join", rid=1, sid=1, ts=1)) for c in range(2, N + 1)]
+        ops += [dict(op="barrier", c=c) for c in range(1, N + 1)]
+        ops += [dict(op="req", c=c, req=dict(k="EntityAdd", rid=2, persist=False, flag=0, px=1, ts=2)) for c in range(1, 5)]
+        ops += [dict(op="req", c=1, req=dict(k="TypeAdd", rid=3, name="a"))] + [dict(op="barrier", c=c) for c in range(1, N + 1)]
+        for rnd_i in range(2):
+            for c in range(1, N + 1):
+                ops.append(dict(op="aburst", c=c, n=250, req=rnd.choice(writers if c <= N // 2 else readers)))
+        ops += [dict(op="waitburst", c=c) for c in range(1, N + 1)]
+        ops += [dict(op="barrier", c=c, ms=15000) for c in range(1, N + 1)]
+        ops += [dict(op="close", c=c) for c in range(1, N + 1, 2)]
+        scs.append(dict(sid="race-%s-%d" % (name, len(scs)), config=dict(mods=ALL, idle_ms=60000, frame_ms=2), ops=ops))
     pin, pout = work.path("race", "in.ndjson"), work.path("race", "out.ndjson")
     write_ndjson(pin, scs)
     env2 = dict(os.environ, GORACE="halt_on_error=0 exitcode=0")
